@@ -113,7 +113,7 @@ fn alias_variants(s2: &[i64], budget: usize, rng: &mut ChaCha20Rng, tries: usize
 }
 
 fn differential_v<V: Fv>(ctx: &Ctx, rep: &mut Report) {
-    let nkeys = ctx.sz(2, 24);
+    let nkeys = ctx.sz(2, 60);
     let (keys, bad) = pool::keys::<V>(ctx.seed, "c02", nkeys);
     for (s, p) in bad {
         rep.inconclusive(format!("keygen panicked for seed {}: {}", hex(&s), p.message));
@@ -124,7 +124,7 @@ fn differential_v<V: Fv>(ctx: &Ctx, rep: &mut Report) {
             return;
         }
     }
-    let per_key = ctx.sz(24, 120);
+    let per_key = ctx.sz(24, 300);
     let r = par_for(keys.len() * per_key, ncpu(), |job, rep| {
         let k = &keys[job % keys.len()];
         let mut rng = rng_for(ctx.seed, &format!("c02-diff-{}-{}", V::NAME, job));
@@ -201,7 +201,7 @@ fn differential_v<V: Fv>(ctx: &Ctx, rep: &mut Report) {
     mono[1] = 1;
     pks.push(("monomial-x".into(), spec::pk_encode(&mono)));
     pks.push(("random".into(), synth_pk::<V>(&mut rng0)));
-    let rounds = ctx.sz(1, 4);
+    let rounds = ctx.sz(1, 12);
     let r = par_for(pks.len() * rounds, ncpu(), |job, rep| {
         let (pkname, pkb) = &pks[job % pks.len()];
         let mut rng = rng_for(ctx.seed, &format!("c02-mal-{}-{}", V::NAME, job));
@@ -243,7 +243,7 @@ pub fn differential(ctx: &Ctx, rep: &mut Report) {
 fn boundary_v<V: Fv>(ctx: &Ctx, rep: &mut Report) {
     let q = spec::Q;
     let deltas: Vec<i64> = vec![-3, -2, -1, 0, 1, 2, 3, -q, q, -1000, 1000];
-    let reps = ctx.sz(6, 60);
+    let reps = ctx.sz(6, 300);
     let jobs = deltas.len() * 4 * reps;
     let r = par_for(jobs, ncpu(), |job, rep| {
         let d = deltas[job % deltas.len()];
@@ -306,7 +306,7 @@ fn boundary_v<V: Fv>(ctx: &Ctx, rep: &mut Report) {
 /// encoding is then made malformed in ways that leave the decoded vector (almost) unchanged:
 /// a padding bit set, a negative zero, the final stop bit dropped near the buffer end.
 fn lenient_v<V: Fv>(ctx: &Ctx, rep: &mut Report) {
-    let reps = ctx.sz(4, 40);
+    let reps = ctx.sz(4, 200);
     let r = par_for(12 * reps, ncpu(), |job, rep| {
         let t = (job % 12) as u32 + 1; // spare bits at the end of the body
         let mut rng = rng_for(ctx.seed, &format!("c02-lenient-{}-{}", V::NAME, job));
